@@ -624,9 +624,11 @@ class DictConverter(t.Generic[FromDataK, FromDataV], Converter[t.Mapping[FromDat
         if not data_is_mapping(val):
             raise ParseInterrupt()
 
-        d = {self.k_conv.try_convert(k): self.v_conv.try_convert(v) for (k, v) in val.items()}
-        # TODO catch errors here
-        return self.constructor(d)
+        try:
+            d = {self.k_conv.try_convert(k): self.v_conv.try_convert(v) for (k, v) in val.items()}
+            return self.constructor(d)
+        except Exception:  # e.g. a converted key which is unhashable
+            raise ParseInterrupt() from None
 
     def collect_errors(self, val: t.Any) -> t.Union[None, WrongTypeError, ProductErrorNode]:
         """See [`Converter.collect_errors`][pane.converters.Converter.collect_errors]"""
@@ -641,6 +643,14 @@ class DictConverter(t.Generic[FromDataK, FromDataV], Converter[t.Mapping[FromDat
                 nodes[str(k)] = node
         if len(nodes):
             return ProductErrorNode(self.expected(), nodes, val)
+        # try to construct val
+        try:
+            self.constructor({self.k_conv.try_convert(k): self.v_conv.try_convert(v) for (k, v) in val.items()})
+            return None
+        except Exception as e:
+            tb = e.__traceback__.tb_next  # type: ignore
+            tb = traceback.TracebackException(type(e), e, tb)
+            return WrongTypeError(self.expected(), val, tb)
 
 
 @dataclasses.dataclass(init=False)
